@@ -1,4 +1,10 @@
 
+(** val negb : bool -> bool **)
+
+let negb = function
+| true -> false
+| false -> true
+
 type nat =
 | O
 | S of nat
@@ -18,6 +24,12 @@ let fst = function
 
 let snd = function
 | (_, y) -> y
+
+(** val length : 'a1 list -> nat **)
+
+let rec length = function
+| [] -> O
+| _ :: l' -> S (length l')
 
 (** val app : 'a1 list -> 'a1 list -> 'a1 list **)
 
